@@ -120,7 +120,16 @@ pub fn gen_c01(rng: &mut Rng, _k: usize, _tier: &str) -> J {
         else { (match rng.below(2) { 0 => vec![], _ => vec!["city"] }, "users".into()) };
     let where_ = if rng.chance(1, 4) { if from_orders { " WHERE qty > 2" } else if joined { " WHERE users.age > 30" } else { " WHERE age > 30" } } else { "" };
     let mut items: Vec<String> = keys.iter().enumerate().map(|(i, c)| format!("{c} AS k{i}")).collect(); items.extend(aggs);
-    let sql = format!("SELECT {} FROM {from}{where_}{}", items.join(", "), if keys.is_empty() { String::new() } else { format!(" GROUP BY {}", keys.join(", ")) });
+    let mut sql = format!("SELECT {} FROM {from}{where_}{}", items.join(", "), if keys.is_empty() { String::new() } else { format!(" GROUP BY {}", keys.join(", ")) });
+    // joins of two protected relations on a condition that can match rows of different units
+    if rng.chance(1, 5) {
+        sql = rng.pick(&["SELECT sum(a.income) AS a0 FROM users AS a JOIN users AS b ON a.city = b.city",
+                         "SELECT a.city AS k0, sum(a.income) AS a0, count(b.age) AS a1 FROM users AS a JOIN users AS b ON a.city = b.city GROUP BY a.city",
+                         "SELECT sum(o.amount) AS a0 FROM orders AS o JOIN users AS u ON o.qty = u.age",
+                         "SELECT sum(o.amount) AS a0, count(p.qty) AS a1 FROM orders AS o JOIN orders AS p ON o.qty = p.qty",
+                         "SELECT sum(price) AS a0, count(price) AS a1 FROM items",
+                         "SELECT sum(i.price) AS a0 FROM items AS i JOIN orders AS o ON i.order_id = o.id"]).to_string();
+    }
     // units may exceed the multiplicity assumption: many orders per user with a small max multiplicity
     json!({"sql": sql, "data_seed": rng.next() % 100000, "n_users": rng.range(2, 25), "max_orders": *rng.pick(&[1i64, 3, 12, 40]),
            "eps": 1.0, "delta": 1e-4, "mult": *rng.pick(&[1.0, 2.0, 100.0]), "mult_share": *rng.pick(&[1.0, 0.01]), "remove": [rng.below(25), rng.below(25)]})
@@ -243,7 +252,7 @@ pub fn gen_c05(rng: &mut Rng, _k: usize, _tier: &str) -> J {
     let w_u = if rng.chance(1, 3) { " WHERE age > 30" } else { "" };
     let w_o = if rng.chance(1, 3) { " WHERE qty > 2" } else { "" };
     let jt = *rng.pick(&["JOIN", "JOIN", "LEFT JOIN", "RIGHT JOIN", "FULL JOIN"]);
-    let sql = match rng.below(12) {
+    let sql = match rng.below(15) {
         0 => format!("SELECT id AS a, age AS b, income + 1 AS c FROM users{w_u}"),
         1 => format!("SELECT user_id AS a, amount * 2 AS b FROM orders{w_o}"),
         2 => format!("SELECT o.amount AS a, u.city AS b FROM orders AS o {jt} users AS u ON o.user_id = u.id"),
@@ -255,7 +264,10 @@ pub fn gen_c05(rng: &mut Rng, _k: usize, _tier: &str) -> J {
         8 => format!("SELECT id AS a, income AS b FROM users{w_u} UNION SELECT user_id AS a, amount AS b FROM orders{w_o}"),
         9 => format!("SELECT id AS a, age AS b FROM users{w_u} ORDER BY age LIMIT {}", rng.range(1, 6)),
         10 => format!("WITH t AS (SELECT user_id AS k, sum(amount) AS s FROM orders GROUP BY user_id) SELECT u.age AS a, t.s AS b FROM users AS u {jt} t ON u.id = t.k"),
-        _ => format!("SELECT a.id AS a, b.age AS b FROM users AS a {jt} users AS b ON a.age = b.age"),
+        11 => format!("SELECT a.id AS a, b.age AS b FROM users AS a {jt} users AS b ON a.age = b.age"),
+        12 => "SELECT order_id AS a, price * 2 AS b FROM items".to_string(),
+        13 => format!("SELECT i.price AS a, o.amount AS b FROM items AS i {jt} orders AS o ON i.order_id = o.id"),
+        _ => "SELECT order_id AS a, sum(price) AS b FROM items GROUP BY order_id".to_string(),
     };
     json!({"sql": sql, "strategy": if rng.chance(2, 3) { "hard" } else { "soft" }, "data_seed": rng.next() % 100000, "n_users": rng.range(2, 12), "max_orders": rng.range(0, 4), "units": [rng.below(12), rng.below(12)]})
 }
